@@ -51,21 +51,38 @@ impl Model {
     }
 }
 
-/// bounded search: sequences of <= 5 operations over 4 handles; an invalidated handle is never used as a premise later
+/// bounded search: sequences of <= 5 operations over 4 handles; an invalidated handle is never used as a premise later.
+/// Thorough tier: the same, and then sequences of <= 6 operations over the 3 handles 1, 2, 3 (one more operation over all
+/// 4 handles would take about 22 times as long).
 fn c17_invalidation_search() -> (bool, String) {
-    let hs = [1u64, 2, 3, 4];
+    let (bad, d) = invalidation_search(&[1u64, 2, 3, 4], 5);
+    if bad || !crate::thorough() {
+        return (bad, d);
+    }
+    let (bad2, d2) = invalidation_search(&[1u64, 2, 3], 6);
+    if bad2 {
+        return (bad2, d2);
+    }
+    (false, format!("{} (<= 5 operations over 4 handles) + {} (<= 6 operations over 3 handles)", d, d2))
+}
+
+fn invalidation_search(hs: &[u64], max_len: usize) -> (bool, String) {
     let mut ops: Vec<Op> = Vec::new();
-    for &h in &hs {
+    for &h in hs {
         ops.push(Op::Invalidate(h));
         ops.push(Op::Insert(h, vec![]));
-        for &p in &hs {
+        for &p in hs {
             if p != h {
                 ops.push(Op::Insert(h, vec![p]));
             }
         }
     }
-    ops.push(Op::Insert(4, vec![1, 2]));
-    ops.push(Op::Insert(3, vec![1, 2]));
+    // two premises: 1, 2 -> every other handle, the largest first
+    for &h in hs.iter().rev() {
+        if h > 2 {
+            ops.push(Op::Insert(h, vec![1, 2]));
+        }
+    }
     let mut tried = 0u64;
     let mut stack: Vec<Vec<usize>> = vec![vec![]];
     while let Some(s) = stack.pop() {
@@ -95,7 +112,7 @@ fn c17_invalidation_search() -> (bool, String) {
                         m.kill_premise(*h);
                     }
                 }
-                for &h in &hs {
+                for &h in hs {
                     let got = g.is_proven(&key(h));
                     if got != m.valid(h) {
                         let trace: Vec<&Op> = s.iter().map(|i| &ops[*i]).collect();
@@ -107,7 +124,7 @@ fn c17_invalidation_search() -> (bool, String) {
                 continue;
             }
         }
-        if s.len() < 5 {
+        if s.len() < max_len {
             for i in 0..ops.len() {
                 let mut n = s.clone();
                 n.push(i);
